@@ -117,6 +117,22 @@ pub fn oracle(c: &Case, st: &mut Stats) -> Verdict {
     st.class_if(r.ingredients.iter().any(|i| i.note.as_deref() == Some("")), "empty-note");
     st.class_if(r.ingredients.iter().any(|i| i.reference.is_some()), "recipe-path-reference");
     roundtrip_scalable(r, &src)?;
+    // reading a recipe through its `&self` accessors must not change what it is equal to
+    let touched = guard(|| {
+        let m = &r.metadata;
+        let _ = (m.title(), m.description(), m.tags(), m.author(), m.source(), m.time(conv), m.servings(), m.locale(), r.servings());
+        let _ = m.map_filtered().count();
+        for i in &r.ingredients {
+            let _ = (i.display_name(), i.modifiers());
+        }
+    });
+    if touched.is_ok() {
+        roundtrip_scalable(r, &format!("{src} [after calling the read accessors]"))?;
+        let again = p.parse(&src);
+        if let Some(r2) = again.output() {
+            vensure!(*r2 == *r, "c15.not-equal", "a recipe whose read accessors were called is no longer equal to a fresh parse of the same text; source {src:?}");
+        }
+    }
     if c.stage % 3 == 0 {
         return Ok(());
     }
@@ -130,6 +146,11 @@ pub fn oracle(c: &Case, st: &mut Stats) -> Verdict {
         return Ok(());
     }
     roundtrip_scaled(&scaled, &src, stage)?;
+    let _ = guard(|| {
+        let m = &scaled.metadata;
+        let _ = (m.tags(), m.time(conv), m.servings(), m.author(), scaled.group_ingredients(conv).len(), scaled.group_cookware().len());
+    });
+    roundtrip_scaled(&scaled, &src, &format!("{stage} + read accessors"))?;
     if c.convert % 3 != 0 {
         let sys = if c.convert % 3 == 1 { System::Metric } else { System::Imperial };
         let _ = scaled.convert(sys, conv);
@@ -156,7 +177,7 @@ pub fn run(tier: Tier) -> i32 {
         run_prop(
             &mut run,
             part,
-            "generated recipes (all relation kinds, modifiers, fractions, ranges, empty notes, huge integers, nested YAML metadata), optionally mutated, parsed under their own or a random configuration; the scalable recipe, its default_scale / scale(f) (f random, also 4e18) and the result of convert to either system are each serialized to JSON, deserialized, compared and re-serialized; non-trivial = the recipe has components; distinct = distinct (source, configuration, stage, factor)",
+            "generated recipes (all relation kinds, modifiers, fractions, ranges, empty notes, huge integers, nested YAML metadata), optionally mutated, parsed under their own or a random configuration; the scalable recipe, its default_scale / scale(f) (f random, also 4e18) and the result of convert to either system are each serialized to JSON, deserialized, compared and re-serialized, also after the recipe's read accessors (metadata getters, grouping) were called; non-trivial = the recipe has components; distinct = distinct (source, configuration, stage, factor)",
             move || case(mutate),
             n,
             |c: &Case, st| {
